@@ -1,2 +1,3 @@
 -- Property theorems, one file per property (helper lemmas under KskmProofs/Lemmas).
+import KskmProofs.C05
 import KskmProofs.C14
